@@ -536,6 +536,10 @@ func runC15(c *Ctx) {
 			if dominatedByFact(st, textEq("cl.Properties.Props.SessionExpiryInterval > s.Options.Capabilities.MaximumSessionExpiryInterval"), true) {
 				ok = true
 			}
+			// the same cap written with the builtin: min(interval, maximum), in either order
+			if v := describe(st.Val); strings.HasPrefix(v, "builtin.min(") && strings.Contains(v, "cl.Properties.Props.SessionExpiryInterval") && strings.Contains(v, "s.Options.Capabilities.MaximumSessionExpiryInterval") {
+				ok = true
+			}
 		}
 		c.ob("C15.d interval-capped", "(*mqtt.Server).SendConnack caps the CONNECT's interval at the server maximum", c.pos(f.Pos()), ok, "")
 	}
